@@ -60,6 +60,10 @@ def cases(tier, seed):
                    'same': i % 4 < 2, 'mask_mode': modes[i % 3], 'spec': 'dict',
                    'fold': (i // 4) % 2 == 1,
                    'time_style': 'binary', 'full_cost': i % 3 == 0, 'seed': seed * 7 + i})
+    # a layer invoked twice in two different width-sharing groups; pad modules per call site / shared
+    for i, c in enumerate(pitgen.special_cases(32 if tier == 'quick' else 800, seed, {'kind': 'random'})):
+        cs.append(dict(c, mask_mode=modes[i % 3], spec=['dict', 'ops', 'params'][(i // 2) % 3],
+                       fold=(i // 4) % 2 == 1, time_style='binary', full_cost=i % 3 == 0))
     return cs
 
 
@@ -121,7 +125,9 @@ def rel_ok(got, want, tol=1e-6):
 
 def run_case(case, ctx):
     rng = random.Random(case['prog_seed'])
-    if case['kind'] == 'reuse':
+    if case.get('special'):
+        prog = pitgen.special_program(rng, case['family'], case['special'], case.get('delay', 0))
+    elif case['kind'] == 'reuse':
         prog = pitgen.reuse_program(rng, case['family'], case['same'],
                                     with_bn=case['seed'] % 2 == 0)
     else:
